@@ -1055,3 +1055,141 @@ Example T02k_move_static_schedule_example :
 Proof. exact move_static_schedule. Qed.
 
 End Cls.
+
+(* ------------------------------------------------------------------------------------------------ *)
+(* Tranche "str": text-level rules (invalid_escape_sequence, deinterpolate_logging_args, delete_commented_code) *)
+Require Pyrefact.RulesStrModel Pyrefact.RulesStrProofs.
+Module Str.
+Import NArith Ascii.
+Import ListNotations.
+Import Pyrefact.RulesStrModel Pyrefact.RulesStrProofs.
+
+(* invalid_escape_sequence after 9b544c4: when the rule fires, the raw literal denotes the same string *)
+Theorem T02s_escape_rule_sound :
+  forall uname body, ies_fires uname body = true ->
+  exists v, decode uname false false body = Some v /\ decode uname true false body = Some v.
+Proof. exact ies_sound. Qed.
+Print Assumptions T02s_escape_rule_sound.
+
+(* no valid escape sequence (str or bytes literal): raw and non-raw reading coincide *)
+Theorem T02s_escape_all_invalid_same :
+  forall uname bytes s, se_all_invalid bytes s = true -> decode uname true bytes s = decode uname false bytes s.
+Proof. exact decode_all_invalid_same. Qed.
+Print Assumptions T02s_escape_all_invalid_same.
+
+(* ... and only then *)
+Theorem T02s_escape_same_only_if_all_invalid :
+  forall uname bytes s v,
+  decode uname false bytes s = Some v -> decode uname true bytes s = Some v -> se_all_invalid bytes s = true.
+Proof. exact decode_same_only_if_all_invalid. Qed.
+Print Assumptions T02s_escape_same_only_if_all_invalid.
+
+(* the repaired rule fires exactly on the literals with a backslash and without a valid escape sequence *)
+Theorem T02s_escape_rule_fires_iff :
+  forall uname body v, decode uname false false body = Some v ->
+  (ies_fires uname body = true <-> se_has_bs body = true /\ se_all_invalid false body = true).
+Proof. exact ies_fires_iff. Qed.
+Print Assumptions T02s_escape_rule_fires_iff.
+
+(* implicit concatenation: the prefix goes to the first piece; the rule compares the whole values *)
+Theorem T02s_escape_concat_sound :
+  forall uname first rest, ies_fires_concat uname first rest = true ->
+  exists v, decode uname false false first = Some v /\ decode uname true false first = Some v.
+Proof. exact ies_concat_sound. Qed.
+Print Assumptions T02s_escape_concat_sound.
+
+(* the rule before 9b544c4 (placeholder texts "\ooo", "\xhh" in the list of valid escapes) *)
+Theorem T02s_escape_old_rule_refuted :
+  forall uname, exists body,
+  ies_old_fires body = true /\ decode uname false false body <> decode uname true false body.
+Proof. exact ies_old_refuted. Qed.
+Print Assumptions T02s_escape_old_rule_refuted.
+
+Theorem T02s_escape_old_rule_partial :
+  forall uname body, ies_old_fires body = true -> se_none_of se_missing_list body = true ->
+  decode uname true false body = decode uname false false body.
+Proof. exact ies_old_partial. Qed.
+Print Assumptions T02s_escape_old_rule_partial.
+
+Example T02s_escape_old_rule_partial_example :
+  let body := map ascii_of_N [97; 92; 100; 92; 46]%N in
+  ies_old_fires body = true /\ se_none_of se_missing_list body = true /\ ies_fires (fun _ => None) body = true.
+Proof. exact ies_old_partial_example. Qed.
+
+(* deinterpolate_logging_args after 3e858c8 *)
+Theorem T02s_logging_rule_partial :
+  forall objs ps msg args enabled,
+  lg_rule ps = Some (msg, args) -> lg_benign objs ps = true ->
+  lg_after objs enabled msg args = lg_before objs enabled ps.
+Proof. exact lg_rule_partial. Qed.
+Print Assumptions T02s_logging_rule_partial.
+
+Theorem T02s_logging_rule_refuted_custom_format :
+  exists objs ps msg args, lg_rule ps = Some (msg, args) /\ lg_after objs true msg args <> lg_before objs true ps.
+Proof. exact lg_rule_refuted_custom_format. Qed.
+Print Assumptions T02s_logging_rule_refuted_custom_format.
+
+Theorem T02s_logging_rule_refuted_raising_str :
+  exists objs ps msg args enabled,
+  lg_rule ps = Some (msg, args) /\ lg_after objs enabled msg args <> lg_before objs enabled ps.
+Proof. exact lg_rule_refuted_raising_str. Qed.
+Print Assumptions T02s_logging_rule_refuted_raising_str.
+
+Theorem T02s_logging_format_call_partial :
+  forall objs fmt n msg args enabled,
+  lg_rule_format fmt n = Some (msg, args) ->
+  exists ps, lg_fparse [] fmt 0 = Some ps /\ length (lg_args ps) = n /\
+             (lg_benign objs ps = true -> lg_after objs enabled msg args = lg_before objs enabled ps).
+Proof. exact lg_rule_format_partial. Qed.
+Print Assumptions T02s_logging_format_call_partial.
+
+(* the guards are needed: a literal % left alone, a format spec squeezed into %s *)
+Theorem T02s_logging_noescape_refuted :
+  exists objs ps msg args,
+  lg_benign objs ps = true /\ lg_rule_noescape ps = Some (msg, args) /\
+  lg_after objs true msg args <> lg_before objs true ps.
+Proof. exact lg_noescape_refuted. Qed.
+Print Assumptions T02s_logging_noescape_refuted.
+
+Theorem T02s_logging_nospec_refuted :
+  exists objs ps msg args,
+  lg_benign objs ps = true /\ lg_rule_nospec ps = Some (msg, args) /\
+  lg_after objs true msg args <> lg_before objs true ps.
+Proof. exact lg_nospec_refuted. Qed.
+Print Assumptions T02s_logging_nospec_refuted.
+
+(* the rule before 3e858c8: str.format placeholders handed to the logging module; the line is lost *)
+Theorem T02s_logging_old_rule_refuted :
+  exists objs ps msg args,
+  lg_benign objs ps = true /\ lg_rule_old ps = Some (msg, args) /\
+  lg_before objs true ps = LEmit (Some [97; 61; 49]%N) /\ lg_after objs true msg args = LEmit None.
+Proof. exact lg_rule_old_refuted. Qed.
+Print Assumptions T02s_logging_old_rule_refuted.
+
+Example T02s_logging_example :
+  let objs := fun _ => lg_o (Some [49]%N) (Some [39; 49; 39]%N) (Some [39; 49; 39]%N) (Some [49]%N) in
+  let ps := [PLit [97; 61]%N; PFld 0 CNone None; PLit [32; 53; 37; 32]%N; PFld 1 CRepr None] in
+  lg_rule ps = Some ([97; 61; 37; 115; 32; 53; 37; 37; 32; 37; 114]%N, [0; 1]) /\ lg_benign objs ps = true /\
+  lg_before objs true ps = LEmit (Some [97; 61; 49; 32; 53; 37; 32; 39; 49; 39]%N).
+Proof. exact lg_rule_partial_example. Qed.
+
+(* delete_commented_code *)
+Theorem T02s_comments_rule_sound :
+  forall parses src,
+  (forall l, In l src -> cm_deletable l = true -> cm_line_insig l = true) ->
+  cm_sig (cm_rule parses src) = cm_sig src.
+Proof. exact cm_rule_sound. Qed.
+Print Assumptions T02s_comments_rule_sound.
+
+Theorem T02s_comments_rule_refuted_unprotected :
+  exists parses src, cm_sig (cm_rule parses src) <> cm_sig src.
+Proof. exact cm_rule_refuted_unprotected. Qed.
+Print Assumptions T02s_comments_rule_refuted_unprotected.
+
+Example T02s_comments_example :
+  let src := [mkLine 0 false false false [TSig 1; TSig 2; TSig 3]; mkLine 1 true false false [TComment; TNl];
+              mkLine 2 true false false [TComment; TNl]; mkLine 3 false false false [TSig 4]] in
+  map l_id (cm_rule (cm_table [(1, 2)]) src) = [0; 2; 3] /\ cm_sig (cm_rule (cm_table [(1, 2)]) src) = cm_sig src.
+Proof. exact cm_rule_example. Qed.
+
+End Str.
